@@ -2011,6 +2011,14 @@ class Controller:
             exitReason = component.engine.exitReason()
             reference = component.specification.reference
             cur_stage_idx = self.stage().index if self.stage() is not None else None
+
+            if exitReason is None and component.engine.isAlive() and component.finishCalled is False:
+                # A POSTMORTEM notification can be delivered after the engine it refers to has been restarted
+                # (e.g. a second state emission of the same task exit). The engine is alive: there is nothing to
+                # check, and treating "no exit reason" as a failure would mark a running component as FAILED.
+                self.log.warning('Ignoring stale POSTMORTEM notification from %s - its engine is alive' % reference)
+                return
+
             self.log.info('Received POSTMORTEM notification from %s in stage %d. '
                           'Returncode: %s. ExitReason: %s. shutdownOn: %s' % (
                             reference, cur_stage_idx, returncode, exitReason,
